@@ -12,8 +12,12 @@
   Not modelled (assumed away by the well-formedness hypothesis `Graph.WF`: every parent id is a
   commit of the graph): missing commits, shallow boundaries, grafts, the commit-graph file.
   The `cstates` dict is an array of `Option Flags` of size `n`; a `KeyError` of `cstates[cmt]` is an
-  explicit error result (`Fail.key`), fuel exhaustion is `Fail.fuel` (theorem `findLcas_ok` in
+  explicit error result (`Fail.key`), fuel exhaustion is `Fail.fuel` (theorem `lca_terminates` in
   Props/C13.lean: neither happens on a well-formed graph with the default fuel).
+
+  The public functions are the code AFTER the C13 fix series (no default date cut, `c1 in lcas`,
+  `_remove_redundant`, duplicate ids removed in `independent`); namespace `Old` keeps the functions as
+  they were before, for the regression witnesses only.
 
   Core Lean only.
 -/
@@ -142,11 +146,11 @@ def hasCandidates (s : St) : Bool :=
     | none => false
 
 /-- body of `for pcmt in parents:` -/
-def pushParent (g : Graph) (minStamp : Int) (cfl : Flags) (acc : FlagMap × List Entry) (p : Nat) :
+def pushParent (g : Graph) (cut : Nat → Bool) (cfl : Flags) (acc : FlagMap × List Entry) (p : Nat) :
     FlagMap × List Entry :=
   let pfl := (acc.1.get p).getD Flags.zero
   if pfl.covers cfl then acc
-  else if g.ts p < minStamp then acc
+  else if cut p then acc
   else (acc.1.set p (pfl.union cfl), (g.ts p, p) :: acc.2)
 
 /-- the flags handed to the parents of a popped commit whose word is `f`:
@@ -155,28 +159,28 @@ def cflagsOf (f : Flags) : Flags :=
   if f.ancMask.isBoth then { f.ancMask with dnc := true } else f.ancMask
 
 /-- loop body once `(dt, c)` has been popped (leaving `rest`) and `cstates[c] = f` has been read -/
-def stepWith (g : Graph) (minStamp : Int) (s : St) (dt : Int) (c : Nat) (rest : List Entry) (f : Flags) : St :=
+def stepWith (g : Graph) (cut : Nat → Bool) (s : St) (dt : Int) (c : Nat) (rest : List Entry) (f : Flags) : St :=
   let newCand := f.ancMask.isBoth && !f.lca
   let fl1 := if newCand then s.fl.set c { f with lca := true } else s.fl
   let cands1 := if newCand then s.cands ++ [(dt, c)] else s.cands
-  let r := (g.parents c).foldl (pushParent g minStamp (cflagsOf f)) (fl1, rest)
+  let r := (g.parents c).foldl (pushParent g cut (cflagsOf f)) (fl1, rest)
   { wl := r.2, fl := r.1, cands := cands1 }
 
 /-- one iteration of the `while _has_candidates(...)` loop -/
-def step (g : Graph) (minStamp : Int) (s : St) : Except Fail St :=
+def step (g : Graph) (cut : Nat → Bool) (s : St) : Except Fail St :=
   match popMax s.wl with
   | none => .error .empty
   | some ((dt, c), rest) =>
     match s.fl.get c with
     | none => .error .key
-    | some f => .ok (stepWith g minStamp s dt c rest f)
+    | some f => .ok (stepWith g cut s dt c rest f)
 
-def loop (g : Graph) (minStamp : Int) : Nat → St → Except Fail St
+def loop (g : Graph) (cut : Nat → Bool) : Nat → St → Except Fail St
   | 0, s => if hasCandidates s then .error .fuel else .ok s
   | fuel + 1, s =>
     if hasCandidates s then
-      match step g minStamp s with
-      | .ok s' => loop g minStamp fuel s'
+      match step g cut s with
+      | .ok s' => loop g cut fuel s'
       | .error e => .error e
     else .ok s
 
@@ -210,28 +214,73 @@ def sortByStamp (l : List Entry) : List Entry := l.foldl (fun acc e => insertByS
 /-- number of loop iterations that always suffices on a well-formed graph -/
 def defaultFuel (g : Graph) (c2s : List Nat) : Nat := 3 * g.n + c2s.length + 2
 
-/-- `_find_lcas(lookup_parents, c1, c2s, lookup_stamp, min_stamp)` -/
-def findLcasFuel (fuel : Nat) (g : Graph) (c1 : Nat) (c2s : List Nat) (minStamp : Int) :
+/-- the `min_stamp` cut: `if min_stamp is not None and pdt < min_stamp: continue` as a predicate on the parent -/
+def cutBelow (g : Graph) (minStamp : Option Int) : Nat → Bool :=
+  fun p => match minStamp with
+    | some m => decide (g.ts p < m)
+    | none => false
+
+/-- `_find_lcas(lookup_parents, c1, c2s, lookup_stamp, min_stamp)`; `cut p` = "parent `p` is skipped" -/
+def findLcasFuel (fuel : Nat) (g : Graph) (c1 : Nat) (c2s : List Nat) (cut : Nat → Bool) :
     Except Fail (List Nat) :=
-  match loop g minStamp fuel (init g c1 c2s) with
+  match loop g cut fuel (init g c1 c2s) with
   | .error e => .error e
   | .ok s =>
     match finalFilter s.fl s.cands [] with
     | .error e => .error e
     | .ok res => .ok ((sortByStamp res).map (·.2))
 
-def findLcas (g : Graph) (c1 : Nat) (c2s : List Nat) (minStamp : Int) : Except Fail (List Nat) :=
-  findLcasFuel (defaultFuel g c2s) g c1 c2s minStamp
+def findLcas (g : Graph) (c1 : Nat) (c2s : List Nat) (cut : Nat → Bool) : Except Fail (List Nat) :=
+  findLcasFuel (defaultFuel g c2s) g c1 c2s cut
 
-/-- all flag words at the end of the loop (driver: compared with the real `cstates`) -/
-def finalFlags (g : Graph) (c1 : Nat) (c2s : List Nat) (minStamp : Int) : Except Fail (List Nat) :=
-  match loop g minStamp (defaultFuel g c2s) (init g c1 c2s) with
+/-- `_find_lcas(...)` called without `min_stamp` (the generated default; `None` = no cut) -/
+def defaultCut (g : Graph) : Nat → Bool := cutBelow g Gen.lcaDefaultMinStamp
+
+/-- all flag words at the end of the loop (driver, debugging) -/
+def finalFlags (g : Graph) (c1 : Nat) (c2s : List Nat) (cut : Nat → Bool) : Except Fail (List Nat) :=
+  match loop g cut (defaultFuel g c2s) (init g c1 c2s) with
   | .error e => .error e
   | .ok s => .ok ((List.range g.n).map fun c => match s.fl.get c with
       | some f => f.toNat
       | none => 0)
 
-/-! ## the public functions -/
+/-! ## the public functions (the code after the C13 fix series) -/
+
+/-- `list(dict.fromkeys(l))`: first occurrences, in order -/
+def dedupe (l : List Nat) : List Nat :=
+  l.foldl (fun acc x => if acc.contains x then acc else acc ++ [x]) []
+
+/-- `is_ancestor(a, b)` inside `_remove_redundant`: `a in _find_lcas(a, [b])` -/
+def isAncestorVia (g : Graph) (a b : Nat) : Except Fail Bool :=
+  match findLcas g a [b] (defaultCut g) with
+  | .error e => .error e
+  | .ok l => .ok (l.contains a)
+
+/-- `any(o != c and is_ancestor(c, o) for o in lcas)` -/
+def redundantIn (g : Graph) (c : Nat) : List Nat → Except Fail Bool
+  | [] => .ok false
+  | o :: r =>
+    if o = c then redundantIn g c r
+    else match isAncestorVia g c o with
+      | .error e => .error e
+      | .ok true => .ok true
+      | .ok false => redundantIn g c r
+
+/-- `[c for c in lcas if not any(...)]` over the list `all` -/
+def keepMaximal (g : Graph) (all : List Nat) : List Nat → Except Fail (List Nat)
+  | [] => .ok []
+  | c :: r =>
+    match redundantIn g c all with
+    | .error e => .error e
+    | .ok d =>
+      match keepMaximal g all r with
+      | .error e => .error e
+      | .ok rest => .ok (if d then rest else c :: rest)
+
+/-- `_remove_redundant(lcas, ...)` -/
+def removeRedundant (g : Graph) (lcas : List Nat) : Except Fail (List Nat) :=
+  let l := dedupe lcas
+  if l.length < 2 then .ok l else keepMaximal g l l
 
 /-- `find_merge_base(repo, commit_ids)` -/
 def findMergeBase (g : Graph) (ids : List Nat) : Except Fail (List Nat) :=
@@ -240,51 +289,54 @@ def findMergeBase (g : Graph) (ids : List Nat) : Except Fail (List Nat) :=
   | [c1] => .ok [c1]
   | c1 :: c2s =>
     if c2s.contains c1 then .ok [c1]
-    else findLcas g c1 c2s
-      (if Gen.mergeBasePassesMinStamp then g.ts c1 else Gen.lcaDefaultMinStamp)
+    else match findLcas g c1 c2s (defaultCut g) with
+      | .error e => .error e
+      | .ok lcas => removeRedundant g lcas
 
 /-- `can_fast_forward(repo, c1, c2)` -/
 def canFastForward (g : Graph) (c1 c2 : Nat) : Except Fail Bool :=
   if c1 = c2 then .ok true
   else
-    match findLcas g c1 [c2] (if Gen.ffPassesMinStamp then g.ts c1 else Gen.lcaDefaultMinStamp) with
+    match findLcas g c1 [c2] (defaultCut g) with
     | .error e => .error e
-    | .ok l => .ok (l == [c1])
+    | .ok l => .ok (l.contains c1)
 
-/-- inner loop of `independent`: is `c` the merge base of `(c, other)` for some other list position? -/
-def dominated (g : Graph) (ids : List Nat) (i : Nat) (c : Nat) : List (Nat × Nat) → Except Fail Bool
+/-- inner loop of `independent`: is `[c]` the merge base of `(c, other)` for some other list position? -/
+def dominated (g : Graph) (i : Nat) (c : Nat) : List (Nat × Nat) → Except Fail Bool
   | [] => .ok false
   | (j, o) :: r =>
-    if i = j then dominated g ids i c r
+    if i = j then dominated g i c r
     else match findMergeBase g [c, o] with
       | .error e => .error e
-      | .ok mb => if mb == [c] then .ok true else dominated g ids i c r
+      | .ok mb => if mb == [c] then .ok true else dominated g i c r
 
-def independentAux (g : Graph) (ids : List Nat) (all : List (Nat × Nat)) :
+def independentAux (g : Graph) (all : List (Nat × Nat)) :
     List (Nat × Nat) → Except Fail (List Nat)
   | [] => .ok []
   | (i, c) :: r =>
-    match dominated g ids i c all with
+    match dominated g i c all with
     | .error e => .error e
     | .ok d =>
-      match independentAux g ids all r with
+      match independentAux g all r with
       | .error e => .error e
       | .ok rest => .ok (if d then rest else c :: rest)
 
 /-- `independent(repo, commit_ids)` -/
-def independent (g : Graph) (ids : List Nat) : Except Fail (List Nat) :=
-  match ids with
+def independent (g : Graph) (ids0 : List Nat) : Except Fail (List Nat) :=
+  match ids0 with
   | [] => .ok []
-  | [c] => .ok [c]
   | _ =>
-    let all := (List.range ids.length).zip ids
-    independentAux g ids all all
+    let ids := dedupe ids0
+    if ids.length = 1 then .ok ids
+    else
+      let all := (List.range ids.length).zip ids
+      independentAux g all all
 
 /-- inner `for ca in lcas: next_lcas.extend(_find_lcas(cmt, [ca]))` -/
 def octopusInner (g : Graph) (cmt : Nat) : List Nat → Except Fail (List Nat)
   | [] => .ok []
   | ca :: r =>
-    match findLcas g cmt [ca] Gen.lcaDefaultMinStamp with
+    match findLcas g cmt [ca] (defaultCut g) with
     | .error e => .error e
     | .ok res =>
       match octopusInner g cmt r with
@@ -304,7 +356,84 @@ def findOctopusBase (g : Graph) (ids : List Nat) : Except Fail (List Nat) :=
   | [] => .ok []
   | [_] => findMergeBase g ids
   | [_, _] => findMergeBase g ids
+  | c0 :: others =>
+    match octopusOuter g others [c0] with
+    | .error e => .error e
+    | .ok lcas => removeRedundant g lcas
+
+/-! ## the same functions as they were BEFORE the fix series (regression witnesses only)
+
+`min_stamp` defaulted to 0; `can_fast_forward` passed `min_stamp = commit time of c1` and compared with `[c1]`;
+nothing was reduced; `independent` did not remove duplicate ids. -/
+
+namespace Old
+
+def cut0 (g : Graph) : Nat → Bool := cutBelow g (some 0)
+
+def findMergeBase (g : Graph) (ids : List Nat) : Except Fail (List Nat) :=
+  match ids with
+  | [] => .ok []
+  | [c1] => .ok [c1]
+  | c1 :: c2s => if c2s.contains c1 then .ok [c1] else findLcas g c1 c2s (cut0 g)
+
+def canFastForward (g : Graph) (c1 c2 : Nat) : Except Fail Bool :=
+  if c1 = c2 then .ok true
+  else
+    match findLcas g c1 [c2] (cutBelow g (some (g.ts c1))) with
+    | .error e => .error e
+    | .ok l => .ok (l == [c1])
+
+def dominated (g : Graph) (i : Nat) (c : Nat) : List (Nat × Nat) → Except Fail Bool
+  | [] => .ok false
+  | (j, o) :: r =>
+    if i = j then dominated g i c r
+    else match findMergeBase g [c, o] with
+      | .error e => .error e
+      | .ok mb => if mb == [c] then .ok true else dominated g i c r
+
+def independentAux (g : Graph) (all : List (Nat × Nat)) : List (Nat × Nat) → Except Fail (List Nat)
+  | [] => .ok []
+  | (i, c) :: r =>
+    match dominated g i c all with
+    | .error e => .error e
+    | .ok d =>
+      match independentAux g all r with
+      | .error e => .error e
+      | .ok rest => .ok (if d then rest else c :: rest)
+
+def independent (g : Graph) (ids : List Nat) : Except Fail (List Nat) :=
+  match ids with
+  | [] => .ok []
+  | [c] => .ok [c]
+  | _ =>
+    let all := (List.range ids.length).zip ids
+    independentAux g all all
+
+def octopusInner (g : Graph) (cmt : Nat) : List Nat → Except Fail (List Nat)
+  | [] => .ok []
+  | ca :: r =>
+    match findLcas g cmt [ca] (cut0 g) with
+    | .error e => .error e
+    | .ok res =>
+      match octopusInner g cmt r with
+      | .error e => .error e
+      | .ok rest => .ok (res ++ rest)
+
+def octopusOuter (g : Graph) : List Nat → List Nat → Except Fail (List Nat)
+  | [], lcas => .ok lcas
+  | cmt :: others, lcas =>
+    match octopusInner g cmt lcas with
+    | .error e => .error e
+    | .ok next => octopusOuter g others next
+
+def findOctopusBase (g : Graph) (ids : List Nat) : Except Fail (List Nat) :=
+  match ids with
+  | [] => .ok []
+  | [_] => findMergeBase g ids
+  | [_, _] => findMergeBase g ids
   | c0 :: others => octopusOuter g others [c0]
+
+end Old
 
 /-! ## specification vocabulary (used by the theorems in Props/C13.lean; nothing here is executed) -/
 
@@ -323,6 +452,16 @@ def CA (g : Graph) (c1 : Nat) (c2s : List Nat) (x : Nat) : Prop :=
 /-- maximal common ancestor: a common ancestor that is not a strict ancestor of another one -/
 def MaxCA (g : Graph) (c1 : Nat) (c2s : List Nat) (x : Nat) : Prop :=
   CA g c1 c2s x ∧ ¬ ∃ y, CA g c1 c2s y ∧ SAnc g x y
+
+/-- common ancestor of ALL of `ids` -/
+def CAall (g : Graph) (ids : List Nat) (x : Nat) : Prop := ∀ c, c ∈ ids → Anc g x c
+
+/-- maximal common ancestor of all of `ids` (the graph-theoretic octopus base) -/
+def MaxCAall (g : Graph) (ids : List Nat) (x : Nat) : Prop :=
+  CAall g ids x ∧ ¬ ∃ y, CAall g ids y ∧ SAnc g x y
+
+/-- the history is acyclic: some rank strictly increases from every parent to its child -/
+def Graph.Acyclic (g : Graph) : Prop := ∃ rk : Nat → Nat, ∀ c p, p ∈ g.parents c → rk p < rk c
 
 /-- stamps strictly increase from every parent to its child -/
 def Graph.StrictMono (g : Graph) : Prop := ∀ c p, p ∈ g.parents c → g.ts p < g.ts c
